@@ -7,6 +7,9 @@ func installOracles(m *Monitors) {
 	if m.primary["C07"] {
 		finalProp = "C07"
 	}
+	if m.primary["C10"] {
+		finalProp = "C10x" // the repair family judges convergence with its own (exemption-aware) oracle
+	}
 	m.final = &finalOracle{baseOracle: baseOracle{m}, prop: finalProp}
 	m.oracles = []oracle{
 		&orC02{baseOracle: baseOracle{m}},
@@ -15,6 +18,8 @@ func installOracles(m *Monitors) {
 		&orC03A{baseOracle: baseOracle{m}},
 		&orC05{baseOracle: baseOracle{m}},
 		&orC06{baseOracle: baseOracle{m}},
+		&orC10{baseOracle: baseOracle{m}},
+		&orC11{baseOracle: baseOracle{m}},
 		&orC20{baseOracle: baseOracle{m}},
 	}
 }
@@ -30,6 +35,11 @@ func (o *orC02) name() string { return "C02" }
 func (o *orC02) onAck(a *ackRec) {
 	m := o.m
 	if !m.s.spec.Cfg.SemiSync {
+		return
+	}
+	// only where the scenario starts from a sane cluster (perturbed initial states of the
+	// repair/offline/disk families legitimately contain a second writable node)
+	if !(m.primary["C01"] || m.primary["C02"] || m.primary["C07"] || m.primary["C11"] || m.primary["C09"] || m.primary["C20"]) {
 		return
 	}
 	sv := m.s.mysql.servers[a.server]
